@@ -1254,10 +1254,11 @@ Proof.
 Qed.
 
 Lemma msg_place_bid_is_place_bid e s t id bidder d x parts :
-  Inv e s -> afind 0 (aucs s) = None ->
+  Inv e s -> afind 0 (aucs s) = None -> bidder <> nobody e ->
   msg_place_bid e s t id bidder d x parts = place_bid e s t id bidder d x parts.
 Proof.
-  intros I Z0. unfold msg_place_bid, bid_validate_basic.
+  intros I Z0 NB. unfold msg_place_bid, bid_validate_basic.
+  destruct (Nat.eqb_spec bidder (nobody e)) as [EB|_]; [contradiction|].
   destruct (Z.eqb_spec id 0) as [->|NZ]; cbn [negb andb].
   - unfold place_bid. rewrite Z0. reflexivity.
   - destruct (Z.leb_spec 0 x) as [P|N]; [reflexivity|].
@@ -1265,3 +1266,7 @@ Proof.
     destruct (a_end a <? t); [reflexivity|].
     rewrite (bid_routine_negative e t a bidder d x parts (Inv_auc_ok e s id a I F) N). reflexivity.
 Qed.
+
+Lemma msg_place_bid_empty_bidder_refused e s t id d x parts :
+  msg_place_bid e s t id (nobody e) d x parts = Err.
+Proof. unfold msg_place_bid. rewrite Nat.eqb_refl. reflexivity. Qed.
